@@ -153,6 +153,42 @@ def directed_same_host(r):
     return dict(cfg=tuple(cfg), insts=[], draws=[0] * 8, events=events, end=t + 5 * T, rev=r.random() < 0.3, fuel=20000)
 
 
+def directed_exact_and_wildcard(r):
+    """One offered service watched through SEVERAL filters by different listeners: a filter naming it exactly (all four ids),
+    wildcard filters, watch-all, one wildcard listener registering only after the offer arrived - offers, a StopOffer or a
+    TTL expiry, another offer: every listener hears everything that matches ITS filter."""
+    T = scen.T
+    cfg = list(scen.timings(r))
+    cfg[11] = r.choice([0, 5 * scen.MS])
+    svc = scen.SERVICES[0]
+    p = {a: scen.Peer(a) for a in (1, 2)}
+    import someip.config as C
+    exact = C.Service(svc.service_id, svc.instance_id, svc.major_version, svc.minor_version)     # equal to what an offer of svc decodes to
+    events = [(0, (1, [3, conv.s_service(exact if r.random() < 0.8 else svc), [0, 0]])),
+              (0, (1, [3, conv.s_service(r.choice([scen.FILTERS[0], scen.FILTERS[1], scen.FILTERS[2]])), [0, 1]]))]
+    if r.random() < 0.5:
+        events.append((0, (1, [5, [0, 2]])))
+    events.append((0, (1, [13])))
+    t = T // 2
+    a = r.choice([1, 2])
+    ttl = r.choice([2, 0xFFFFFF])
+    events.append((t, (0, a, r.random() < 0.3, p[a].datagram([svc.create_offer_entry(ttl)], False))))
+    if r.random() < 0.5:
+        events.append((t + T // 4, (0, 3 - a, False, p[3 - a].datagram([scen.SERVICES[1].create_offer_entry(0xFFFFFF)], False))))
+    late = r.random() < 0.6
+    if late:
+        events.append((t + T // 2, (1, [3, conv.s_service(scen.FILTERS[0]), [0, 3]])))
+    t2 = t + r.choice([T, 3 * T])
+    if r.random() < 0.6 or ttl == 0xFFFFFF:
+        events.append((t2, (0, a, False, p[a].datagram([svc.create_offer_entry(0)], False))))
+    if r.random() < 0.5:
+        events.append((t2 + T, (0, a, False, p[a].datagram([svc.create_offer_entry(3)], False))))
+    if r.random() < 0.3:
+        events.append((t + T // 3, (1, [4, events[0][1][1][1], [0, 0]])))
+    events.sort(key=lambda e: e[0])
+    return dict(cfg=tuple(cfg), insts=[], draws=[0] * 8, events=events, end=t2 + 6 * T, rev=r.random() < 0.3, fuel=20000)
+
+
 def run(ctx):
     r = ctx.rng
     quick = ctx.tier == "quick"
@@ -174,6 +210,8 @@ def run(ctx):
     import random
     r2 = random.Random(ctx.seed * 7919 + 5)       # a stream of its own: the scenarios above stay what they were
     scs += [directed_same_host(r2) for _ in range(30 if quick else 1000)]
+    r3 = random.Random(ctx.seed * 7919 + 105)
+    scs += [directed_exact_and_wildcard(r3) for _ in range(30 if quick else 1000)]
     stackprop.run_scenarios(ctx, scs, 3005, CODES, known_codes={9: "F13", 18: "F18"}, kind_of=lambda sc: "static" if all(e[1][0] not in (4, 6) for t, e in sc["events"] if e[0] == 1) else "dynamic", what="discovery")
 
 
